@@ -62,6 +62,17 @@ IrrCmp(eco, x, y) == IF eco = "maven" THEN MvListCmp(x, y, 1) ELSE IF eco = "alp
 \* KF-maven-01): convexity (C20) is not claimed across them
 OrderIrregular(eco, cs) == (eco = "alpm" /\ AlpmIrregular(cs)) \/ (eco = "maven" /\ ~MvRegular(cs))
 
+\* the bounds written in a range text: split at spaces, commas and brackets, leading operator characters
+\* dropped.  A range with an order-irregular bound is not claimed to be convex either.
+RECURSIVE SplitOn(_, _)
+SplitOn(cs, seps) ==
+  LET k == FirstAt(cs, 1, LAMBDA c : c \in seps) IN
+  IF k > Len(cs) THEN <<cs>> ELSE <<SubSeq(cs, 1, k - 1)>> \o SplitOn(SubSeq(cs, k + 1, Len(cs)), seps)
+StripOps(t) == LET k == FirstNotAt(t, 1, LAMBDA c : c \in {60, 62, 61, 33, 126, 94}) IN SubSeq(t, k, Len(t))
+RangeBounds(text) == LET toks == SplitOn(S2C(text), {32, 44, 91, 93, 40, 41, 124}) IN
+                     {StripOps(toks[i]) : i \in 1..Len(toks)} \ {<<>>, S2C("and")}
+RangeOrderIrregular(eco, text) == eco \in {"alpm", "maven"} /\ \E b \in RangeBounds(text) : OrderIrregular(eco, b)
+
 KnownAs(open, mm) ==
   LET S == {d \in open : Dev(d, mm)} IN IF S = {} THEN "" ELSE CHOOSE d \in S : TRUE
 =============================================================================
